@@ -13,6 +13,10 @@ except ImportError:
 __all__ = ['run_timeout']
 
 
+class _Expired(Exception):
+    pass
+
+
 def run_timeout(seconds: float, func, *args, **kwargs):
 
     # Use native thread pool of gevent, as patched threads behave like cooperative greenlets,
@@ -39,12 +43,13 @@ def run_timeout(seconds: float, func, *args, **kwargs):
             _vp('tl.join')
             thread.join()
         _vp('tl.raise')
-        raise TimeoutError
+        raise _Expired
 
     # This call flow ensure that the memory of the "killed" thread is cleared
+    # (only for the expiry raised above: a TimeoutError raised by the function itself is its own exception)
     try:
         return _inner_run()
-    except TimeoutError:
+    except _Expired:
         pass
     gc.collect()
     raise TimeoutError
